@@ -335,6 +335,27 @@ func TestC11FixedAndEnums(t *testing.T) {
 				if got := int(dv.Int()); got != want {
 					tl.fail("enum-decode", c, "symbol text %q of %s decoded to constant %d, want %d (0 = the unknown value)", text, n.Full(), got, want)
 				}
+				// the same document decoded into a variable that already holds each declared symbol (a reused receiver)
+				for prev := 1; prev <= len(n.Symbols); prev++ {
+					dst := reflect.New(dyn.GoType(S, ty))
+					dst.Elem().SetInt(int64(prev))
+					var r restlicodec.Reader
+					if format == "header" {
+						r, _ = restlicodec.NewRor2Reader(doc)
+					} else {
+						r, _ = restlicodec.NewJsonReader([]byte(doc))
+					}
+					evaluated++
+					var rerr error
+					if p, pv, st := hx.Try(func() { rerr = dyn.UnmarshalInto(dst, r) }); p {
+						tl.fail("enum-decode", c, "panic: %v\n%s", pv, st)
+						break
+					}
+					if rerr == nil && int(dst.Elem().Int()) != want {
+						tl.fail("enum-decode", c, "symbol text %q of %s decoded into a variable holding %s gives constant %d, want %d (0 = the unknown value)", text, n.Full(), n.Symbols[prev-1], dst.Elem().Int(), want)
+						break
+					}
+				}
 			}
 		}
 	}
